@@ -11,7 +11,7 @@ from vf.props.e2e import outcome_label, spec_summary
 
 def strategy():
     small = Profile(vrl='small', max_frames=1, max_channels=2, max_rows=3, max_width=2, noformat=3,
-                    nf_payload_max=800, index_types=False, units=False, name_max=8)
+                    nf_payload_max=800, index_types=False, units=False, name_max=8, preludes=True)
     large = Profile(vrl='mixed', max_frames=1, max_channels=2, max_rows=3, max_width=2, noformat=3,
                     nf_payload_max=50000, index_types=False, units=False, name_max=40)
     # several frames and logical files around the payloads (each record must still appear exactly once, under its object)
